@@ -13,6 +13,8 @@ The model driver executes, for a parallel-ECB object served by a vector back end
 -/
 import SkinnyVerif.Impl.VecExec
 import SkinnyVerif.Properties.C07L
+import SkinnyVerif.Properties.C07ML
+import SkinnyVerif.Api.VecExecM
 
 namespace SkinnyVerif.Properties
 open SkinnyVerif SkinnyVerif.Gen SkinnyVerif.Impl SkinnyVerif.Lemmas SkinnyVerif.Spec.Modes SkinnyVerif.Spec.Skinny
@@ -112,5 +114,28 @@ theorem C07X_exec_is_ecb (be : Backend) (u enc : Bool) (ks : KeySched 64) (ks64 
     · exact h8.2.2.1
     · exact h8.2.2.2
     · exact h8.2.2.1
+
+/-! ## Mantis -/
+
+open SkinnyVerif.Api SkinnyVerif.Api.VecExecM in
+theorem exec_mantis8 : @VecExecM.mantis8 = @Lemmas.vecMantis8 := rfl
+
+open SkinnyVerif.Api SkinnyVerif.Api.VecExecM in
+theorem exec_batchedM : @VecExecM.batchedM = @mantisBatched := by
+  funext G o ks fuel tw inp
+  induction fuel generalizing tw inp with
+  | zero => rfl
+  | succ n ih => simp only [VecExecM.batchedM, mantisBatched, ih]
+
+open SkinnyVerif.Api SkinnyVerif.Api.VecExecM in
+/-- **what the model driver prints for a Mantis parallel call on any back end** is block `i` under tweak `i` through the
+scalar `mantis_ecb_crypt_tweaked` (64-bit-word pieces; C02 / C12 relate them to the other configurations and to the
+specification), for every schedule, round count, tweak array and byte count -/
+theorem C07X_mantis_exec (be : Backend) (ks : MantisKey) (tw inp : Bytes) :
+    parMantis be (opsMantis .c64le) ks tw inp = mantisParBlocks (opsMantis .c64le) ks (inp.length + 1) tw inp := by
+  have h := C07_mantis_whole_buffer ks tw inp
+  cases be <;> simp only [parMantis, exec_batchedM, exec_mantis8]
+  · exact h
+  · exact h
 
 end SkinnyVerif.Properties
